@@ -379,6 +379,8 @@ class UpnpFactory:
                     "Caught Action Argument without a State Variable name, ignoring"
                 )
                 continue
+            # state variable names are stripped, refer to them the same way
+            state_variable_name = state_variable_name.strip()
 
             argument_info = ActionArgumentInfo(
                 name=argument_name,
